@@ -99,6 +99,454 @@ def read(repo, rel):
     return strip_comments(open(p, encoding="utf-8", errors="replace").read())
 
 
+
+# ------------------------------------------------------------------------------------------------
+# Semantic recognition, token level (fallback for the AST, and the only extractor for object.cpp /
+# reference.cpp / GetReference).  Works on comment-stripped source.
+
+KEYWORD_RE = re.compile(r"\s*(if|for|while|switch|try|do|else)\b")
+
+
+def _skip_ws(s, i):
+    while i < len(s) and s[i].isspace():
+        i += 1
+    return i
+
+
+def parse_stmt(s, i):
+    """One statement starting at s[i:] -> (node, end).  node = ("if", cond, then, else|None) |
+    ("block", [nodes]) | ("loop", text) | ("simple", text)."""
+    i = _skip_ws(s, i)
+    if i >= len(s):
+        return None, i
+    if s[i] == "{":
+        e = match_close(s, i)
+        return ("block", parse_stmts(s[i + 1:e])), e + 1
+    m = KEYWORD_RE.match(s, i)
+    if m and m.group(1) == "if":
+        p0 = s.index("(", m.end() - 0)
+        p1 = match_close(s, p0, "(", ")")
+        cond = s[p0 + 1:p1]
+        then, j = parse_stmt(s, p1 + 1)
+        k = _skip_ws(s, j)
+        els = None
+        m2 = re.compile(r"else\b").match(s, k)
+        if m2:
+            els, j = parse_stmt(s, m2.end())
+        return ("if", cond, then, els), j
+    if m and m.group(1) in ("for", "while", "switch"):
+        p0 = s.index("(", m.end())
+        p1 = match_close(s, p0, "(", ")")
+        body, j = parse_stmt(s, p1 + 1)
+        return ("loop", s[i:j]), j
+    if m and m.group(1) == "do":
+        body, j = parse_stmt(s, m.end())
+        k = s.index(";", j)
+        return ("loop", s[i:k + 1]), k + 1
+    if m and m.group(1) == "try":
+        body, j = parse_stmt(s, m.end())
+        while True:
+            k = _skip_ws(s, j)
+            m3 = re.compile(r"catch\b").match(s, k)
+            if not m3:
+                break
+            p0 = s.index("(", m3.end())
+            p1 = match_close(s, p0, "(", ")")
+            h, j = parse_stmt(s, p1 + 1)
+        return ("loop", s[i:j]), j
+    # simple statement: up to the `;` at depth 0
+    depth, j = 0, i
+    while j < len(s):
+        c = s[j]
+        if c == '"' or c == "'":
+            q = c
+            j += 1
+            while j < len(s) and s[j] != q:
+                j += 2 if s[j] == "\\" else 1
+        elif c in "([{":
+            depth += 1
+        elif c in ")]}":
+            depth -= 1
+        elif c == ";" and depth == 0:
+            break
+        j += 1
+    return ("simple", s[i:j + 1].strip()), j + 1
+
+
+def parse_stmts(s):
+    out, i = [], 0
+    while True:
+        n, i = parse_stmt(s, i)
+        if n is None:
+            break
+        if n == ("simple", ";") or n == ("simple", ""):
+            continue
+        out.append(n)
+    return out
+
+
+def _strip_parens(c):
+    c = c.strip()
+    while c.startswith("(") and match_close(c, 0, "(", ")") == len(c) - 1:
+        c = c[1:-1].strip()
+    return c
+
+
+def _split_top(c, op):
+    parts, depth, cur, i = [], 0, [], 0
+    while i < len(c):
+        ch = c[i]
+        if ch in "([{":
+            depth += 1
+        elif ch in ")]}":
+            depth -= 1
+        if depth == 0 and c.startswith(op, i):
+            parts.append("".join(cur))
+            cur = []
+            i += len(op)
+            continue
+        cur.append(ch)
+        i += 1
+    parts.append("".join(cur))
+    return parts
+
+
+def norm_atom(a):
+    """Canonical spelling of one conjunct: no blanks, no redundant parentheses, `x == true` -> x,
+    `x == false` / `false == x` / `!(x)` -> !x, `(e) != 0` -> e."""
+    a = re.sub(r"\s+", "", _strip_parens(a))
+    changed = True
+    while changed:
+        changed = False
+        for pat, fn in ((r"^(.*)==true$", lambda m: m.group(1)), (r"^true==(.*)$", lambda m: m.group(1)),
+                        (r"^(.*)!=false$", lambda m: m.group(1)), (r"^(.*)!=0$", lambda m: m.group(1)),
+                        (r"^(.*)==false$", lambda m: "!" + _strip_parens(m.group(1))),
+                        (r"^false==(.*)$", lambda m: "!" + _strip_parens(m.group(1)))):
+            m = re.match(pat, a)
+            if m and "&&" not in a and "||" not in a:
+                a = _strip_parens(fn(m))
+                changed = True
+        if a.startswith("!(") and match_close(a, 1, "(", ")") == len(a) - 1 and "&&" not in a and "||" not in a:
+            a = "!" + _strip_parens(a[1:])
+            changed = True
+        if a.startswith("!!"):
+            a = a[2:]
+            changed = True
+    return a
+
+
+def conjuncts(cond):
+    """The set of conjuncts of a condition; None if it contains a top-level `||` (not a plain conjunction)."""
+    c = _strip_parens(cond)
+    if len(_split_top(c, "||")) > 1:
+        return None
+    out = []
+    for part in _split_top(c, "&&"):
+        p = _strip_parens(part)
+        if len(_split_top(p, "&&")) > 1 or len(_split_top(p, "||")) > 1:
+            sub = conjuncts(p)
+            if sub is None:
+                return None
+            out += sub
+        else:
+            out.append(norm_atom(p))
+    return sorted(set(out))
+
+
+PLAIN_BEFORE_THROW = re.compile(r"^(Log\s*\(|[A-Za-z_][\w:<>\s\*&]*\s+[A-Za-z_]\w*\s*(=|\(|;)|[A-Za-z_][\w\.\->]*\s*(<<|\())")
+
+
+def throws_unconditionally(node):
+    """The statement cannot complete normally: a throw, or a block of plain statements ending in one."""
+    if node is None:
+        return False
+    if node[0] == "simple":
+        t = node[1]
+        return bool(re.match(r"(BOOST_THROW_EXCEPTION\s*\(|throw\b|(::)?boost::throw_exception\s*\()", t))
+    if node[0] == "block":
+        body = node[1]
+        if not body or not throws_unconditionally(body[-1]):
+            return False
+        return all(b[0] == "simple" and not re.match(r"(return|goto|break|continue)\b", b[1]) for b in body[:-1])
+    return False
+
+
+def is_guard_if(node, want):
+    """`if (<exactly the conjuncts want>) <unconditional throw>` (an else branch does not matter)."""
+    return (node is not None and node[0] == "if" and conjuncts(node[1]) == sorted(want)
+            and throws_unconditionally(node[2]))
+
+
+def text_node_guard(body):
+    st = parse_stmts(body)
+    return bool(st) and is_guard_if(st[0], ["frame.Sandboxed"])
+
+
+def _contains(node, needle):
+    if node is None:
+        return False
+    if node[0] in ("simple", "loop"):
+        return needle in node[1]
+    if node[0] == "block":
+        return any(_contains(b, needle) for b in node[1])
+    if node[0] == "if":
+        return needle in node[1] or _contains(node[2], needle) or _contains(node[3], needle)
+    return False
+
+
+SIDE_EFFECT_ATOM = re.compile(r"^!\w+->IsSideEffectFree\(\)$")
+
+
+def text_call_check(body):
+    st = parse_stmts(body)
+    for n in st:
+        if _contains(n, "VMOps::FunctionCall(") or _contains(n, "VMOps::FunctionCall ("):
+            return False                       # reached the call without having seen the check
+        if n[0] == "if" and throws_unconditionally(n[2]):
+            cj = conjuncts(n[1])
+            if cj is not None and len(cj) == 2 and "frame.Sandboxed" in cj and any(SIDE_EFFECT_ATOM.match(a) for a in cj):
+                return True
+    return False
+
+
+NUV_ATOM = re.compile(r"^[\w\.\->\(\)]*\.Attributes&FANoUserView$")
+
+
+def text_field_check(body):
+    """object.cpp Object::GetFieldByName: before the field is read (`return GetField(fid)`), under `sandboxed`
+    a FANoUserView field throws — nested ifs or one conjunction."""
+    for n in parse_stmts(body):
+        if _contains(n, "GetField(fid)") and not (n[0] == "if"):
+            return False
+        if n[0] != "if":
+            continue
+        cj = conjuncts(n[1])
+        if cj is None:
+            continue
+        if len(cj) == 2 and "sandboxed" in cj and any(NUV_ATOM.match(a) for a in cj) and throws_unconditionally(n[2]):
+            return True
+        if cj == ["sandboxed"]:
+            inner = n[2][1] if n[2] and n[2][0] == "block" else [n[2]]
+            for m in inner:
+                if m and m[0] == "if":
+                    c2 = conjuncts(m[1])
+                    if c2 is not None and len(c2) == 1 and NUV_ATOM.match(c2[0]) and throws_unconditionally(m[2]):
+                        return True
+                if m and (_contains(m, "return") and m[0] == "simple"):
+                    break
+    return False
+
+
+def text_init_dict_off(body):
+    """IndexerExpression::GetReference: `init_dict` is forced to false under frame.Sandboxed before it is used."""
+    for n in parse_stmts(body):
+        if n[0] == "if" and conjuncts(n[1]) == ["frame.Sandboxed"] and n[3] is None:
+            inner = n[2][1] if n[2] and n[2][0] == "block" else [n[2]]
+            if len(inner) == 1 and inner[0][0] == "simple" and re.sub(r"\s+", "", inner[0][1]) == "init_dict=false;":
+                return True
+        if n[0] == "simple" and re.sub(r"\s+", "", n[1]) in ("init_dict=init_dict&&!frame.Sandboxed;", "init_dict=!frame.Sandboxed&&init_dict;",
+                                                            "init_dict&=!frame.Sandboxed;", "if(frame.Sandboxed)init_dict=false;"):
+            return True
+        if _contains(n, "init_dict") or _contains(n, "GetReference(") or _contains(n, "SetField"):
+            return False                       # used (or a write reached) before it was switched off
+    return False
+
+
+# ------------------------------------------------------------------------------------------------
+# Semantic recognition from the clang JSON AST (preferred for expression.cpp)
+
+TRANSPARENT = ("ImplicitCastExpr", "ParenExpr", "ExprWithCleanups", "MaterializeTemporaryExpr", "CXXBindTemporaryExpr",
+               "CXXFunctionalCastExpr", "ConstantExpr")
+
+
+def a_strip(n):
+    while n and n.get("kind") in TRANSPARENT and len(n.get("inner", [])) == 1:
+        n = n["inner"][0]
+    return n
+
+
+def a_bool_lit(n):
+    n = a_strip(n)
+    return n.get("value") if n and n.get("kind") == "CXXBoolLiteralExpr" else None
+
+
+def a_is_frame_sandboxed(n):
+    n = a_strip(n)
+    if not n:
+        return False
+    if n.get("kind") == "BinaryOperator" and n.get("opcode") in ("==", "!="):
+        l, r = n["inner"]
+        for x, y in ((l, r), (r, l)):
+            b = a_bool_lit(y)
+            if b is not None and ((n["opcode"] == "==") == bool(b)):
+                return a_is_frame_sandboxed(x)
+        return False
+    if n.get("kind") == "MemberExpr" and n.get("name") == "Sandboxed":
+        base = a_strip(n["inner"][0])
+        return base.get("kind") == "DeclRefExpr" and (base.get("referencedDecl") or {}).get("name") == "frame" \
+            and (base.get("referencedDecl") or {}).get("kind") == "ParmVarDecl"
+    return False
+
+
+def a_is_not_side_effect_free(n):
+    n = a_strip(n)
+    if not n:
+        return False
+
+    def is_call(x):
+        x = a_strip(x)
+        return x and x.get("kind") == "CXXMemberCallExpr" and a_strip(x["inner"][0]).get("name") == "IsSideEffectFree"
+    if n.get("kind") == "UnaryOperator" and n.get("opcode") == "!":
+        return is_call(n["inner"][0])
+    if n.get("kind") == "BinaryOperator" and n.get("opcode") in ("==", "!="):
+        l, r = n["inner"]
+        for x, y in ((l, r), (r, l)):
+            b = a_bool_lit(y)
+            if b is not None and ((n["opcode"] == "==") != bool(b)):
+                return is_call(x)
+    return False
+
+
+def a_conjuncts(n):
+    n = a_strip(n)
+    if n and n.get("kind") == "BinaryOperator" and n.get("opcode") == "&&":
+        return a_conjuncts(n["inner"][0]) + a_conjuncts(n["inner"][1])
+    return [n]
+
+
+def a_throws(n):
+    n = a_strip(n)
+    if not n:
+        return False
+    k = n.get("kind")
+    if k == "CXXThrowExpr":
+        return True
+    if k == "CallExpr":
+        cal = a_strip(n["inner"][0])
+        return cal.get("kind") == "DeclRefExpr" and (cal.get("referencedDecl") or {}).get("name", "").startswith("throw_exception")
+    if k == "CompoundStmt":
+        inner = [c for c in n.get("inner", []) if c.get("kind") != "NullStmt"]
+        if not inner or not a_throws(inner[-1]):
+            return False
+        return all(c.get("kind") in ("DeclStmt", "CallExpr", "CXXMemberCallExpr", "CXXOperatorCallExpr", "ExprWithCleanups") for c in inner[:-1])
+    return False
+
+
+def a_if_parts(n):
+    if not n or n.get("kind") != "IfStmt" or n.get("hasInit") or n.get("hasVar") or n.get("isConstexpr"):
+        return None
+    inner = n.get("inner", [])
+    if len(inner) < 2:
+        return None
+    return inner[0], inner[1]
+
+
+def a_contains_call(n, name):
+    if not isinstance(n, dict):
+        return False
+    if n.get("kind") == "DeclRefExpr" and (n.get("referencedDecl") or {}).get("name") == name:
+        return True
+    return any(a_contains_call(c, name) for c in n.get("inner", []))
+
+
+def ast_expression_tables(repo, build, cache_dir=None):
+    """{class: guarded} for every DoEvaluate with a body in expression.cpp, and the call check — or None if the
+    AST is not available (no clang, no configured build tree, compile error)."""
+    import hashlib
+    import json
+    import shutil
+    import subprocess
+    clang = shutil.which("clang++-14") or shutil.which("clang++")
+    src = os.path.join(repo, "lib/config/expression.cpp")
+    if not clang or not build or not os.path.isdir(build):
+        return None
+    h = hashlib.sha1()
+    for rel in ("lib/config/expression.cpp", "lib/config/expression.hpp", "lib/config/vmops.hpp", "lib/base/scriptframe.hpp", "lib/base/function.hpp"):
+        try:
+            h.update(open(os.path.join(repo, rel), "rb").read())
+        except OSError:
+            return None
+    h.update(open(os.path.abspath(__file__), "rb").read())
+    key = h.hexdigest()
+    if cache_dir:
+        cp = os.path.join(cache_dir, key + ".json")
+        if os.path.exists(cp):
+            try:
+                return json.load(open(cp))
+            except ValueError:
+                pass
+    cmd = [clang, "-std=gnu++17", "-fsyntax-only", "-w", "-DICINGA2_VERIF", "-DBOOST_ASIO_USE_TS_EXECUTOR_AS_DEFAULT",
+           "-DBOOST_COROUTINES_NO_DEPRECATION_WARNING", "-DBOOST_FILESYSTEM_NO_DEPRECATED", "-D_GNU_SOURCE",
+           "-I" + repo, "-I" + os.path.join(repo, "lib"), "-I" + build, "-I" + os.path.join(build, "lib"),
+           "-isystem", os.path.join(repo, "third-party/nlohmann_json"), "-isystem", os.path.join(repo, "third-party/utf8cpp/source"),
+           "-isystem", os.path.join(repo, "third-party"),
+           "-Xclang", "-ast-dump=json", "-Xclang", "-ast-dump-filter=DoEvaluate", src]
+    try:
+        p = subprocess.run(cmd, stdout=subprocess.PIPE, stderr=subprocess.PIPE, timeout=300)
+    except (OSError, subprocess.TimeoutExpired):
+        return None
+    if p.returncode != 0:
+        return None
+    res = ast_tables_from_dump(p.stdout.decode("utf-8", "replace"))
+    if res is not None and cache_dir:
+        os.makedirs(cache_dir, exist_ok=True)
+        with open(os.path.join(cache_dir, key + ".json"), "w") as f:
+            json.dump(res, f)
+    return res
+
+
+def ast_tables_from_dump(txt):
+    import json
+    dec = json.JSONDecoder()
+    i, guards, call = 0, {}, None
+    while i < len(txt):
+        while i < len(txt) and txt[i] != "{":          # skips blanks and `Dumping …:` headers
+            j = txt.find("\n", i)
+            if txt[i] in " \r\n\t":
+                i += 1
+            else:
+                i = len(txt) if j < 0 else j + 1
+        if i >= len(txt):
+            break
+        try:
+            d, i = dec.raw_decode(txt, i)
+        except ValueError:
+            return None
+        if d.get("kind") != "CXXMethodDecl" or d.get("name") != "DoEvaluate":
+            continue
+        body = [c for c in d.get("inner", []) if c.get("kind") == "CompoundStmt"]
+        if not body:
+            continue
+        m = re.match(r"_ZNK(?:\d+[A-Za-z_]\w*?)??(\d+)", d.get("mangledName", ""))
+        mm = re.match(r"_ZNK\d+icinga(\d+)", d.get("mangledName", "")) or re.match(r"_ZNK(\d+)", d.get("mangledName", ""))
+        if not mm:
+            continue
+        n = int(mm.group(1))
+        cls = d["mangledName"][mm.end():mm.end() + n]
+        stmts = [c for c in body[0].get("inner", []) if c.get("kind") != "NullStmt"]
+        g = False
+        if stmts:
+            parts = a_if_parts(stmts[0])
+            if parts:
+                cj = a_conjuncts(parts[0])
+                g = len(cj) >= 1 and all(a_is_frame_sandboxed(c) for c in cj) and a_throws(parts[1])
+        guards[cls] = g
+        if cls == "FunctionCallExpression":
+            call = False
+            for st in stmts:
+                if a_contains_call(st, "FunctionCall"):
+                    break
+                parts = a_if_parts(st)
+                if parts and a_throws(parts[1]):
+                    cj = a_conjuncts(parts[0])
+                    if len(cj) == 2 and any(a_is_frame_sandboxed(c) for c in cj) and any(a_is_not_side_effect_free(c) for c in cj):
+                        call = True
+                        break
+    if not guards:
+        return None
+    return {"guards": guards, "callCheck": call}
+
+
 THROW_GUARD = re.compile(r"\s*if\s*\(\s*frame\.Sandboxed\s*\)\s*BOOST_THROW_EXCEPTION\s*\(\s*ScriptError\s*\(")
 
 
@@ -139,7 +587,20 @@ def split_args(s):
     return parts
 
 
-def extract(repo):
+def _setfield_only_under_init_dict(node, under=False):
+    if node is None:
+        return True
+    if node[0] in ("simple", "loop"):
+        return under or "SetField" not in node[1]
+    if node[0] == "block":
+        return all(_setfield_only_under_init_dict(b, under) for b in node[1])
+    if node[0] == "if":
+        u = under or conjuncts(node[1]) == ["init_dict"]
+        return ("SetField" not in node[1]) and _setfield_only_under_init_dict(node[2], u) and _setfield_only_under_init_dict(node[3], under)
+    return True
+
+
+def extract(repo, build=None, cache=None, use_ast=True):
     t = {}
     expr = read(repo, "lib/config/expression.cpp")
 
@@ -153,7 +614,18 @@ def extract(repo):
     for must in ("SetExpression", "SetConstExpression", "FunctionCallExpression", "IndexerExpression", "LiteralExpression"):
         if must not in names:
             raise Lost("expression.cpp: %s::DoEvaluate not found" % must)
-    t["nodeGuards"] = [(k, bool(THROW_GUARD.match(b))) for k, b in ev]
+    text_guards = [(k, text_node_guard(b)) for k, b in ev]
+    ast = ast_expression_tables(repo, build, cache) if use_ast else None
+    t["method"] = "text"
+    t["ast_text_disagree"] = []
+    if ast and all(k in ast["guards"] for k in names) and ast.get("callCheck") is not None:
+        # the AST is authoritative (it sees through macros, typedefs and layout); the token-level result is kept
+        # as a cross-check and reported when it differs
+        t["method"] = "clang-ast"
+        t["nodeGuards"] = [(k, bool(ast["guards"][k])) for k in names]
+        t["ast_text_disagree"] = [k for k, g in text_guards if bool(ast["guards"][k]) != g]
+    else:
+        t["nodeGuards"] = text_guards
 
     # --- reference guards
     rf = bodies(expr, re.compile(r"^bool\s+(\w+)::GetReference\s*\(\s*ScriptFrame\s*&\s*frame\s*,[^)]*\)\s*const\s*\{", re.M))
@@ -161,23 +633,18 @@ def extract(repo):
         raise Lost("expression.cpp: IndexerExpression::GetReference not found")
     refs = []
     for k, b in rf:
-        w = b.find("SetField")
-        if THROW_GUARD.match(b):
-            ok = True
-        elif w < 0:
+        if text_node_guard(b) or "SetField" not in b:
             ok = True
         else:
-            m = re.search(r"if\s*\(\s*frame\.Sandboxed\s*\)\s*init_dict\s*=\s*false\s*;", b)
-            # every SetField must sit inside `if (init_dict)` and the forcing must precede it
-            ok = bool(m) and m.start() < w and bool(re.search(r"if\s*\(\s*init_dict\s*\)\s*\{", b[m.end():w]))
+            # init_dict is switched off under frame.Sandboxed before its first use, and every SetField sits
+            # under `if (init_dict)`
+            ok = text_init_dict_off(b) and all(_setfield_only_under_init_dict(n) for n in parse_stmts(b))
         refs.append((k, ok))
     t["refGuards"] = refs
 
     # --- the init_dict guard itself (expression.cpp:758-759), as an entry of its own
     ib = dict(rf)["IndexerExpression"]
-    m = re.search(r"if\s*\(\s*frame\.Sandboxed\s*\)\s*init_dict\s*=\s*false\s*;", ib)
-    first_use = re.search(r"GetReference\s*\(|if\s*\(\s*init_dict\s*\)", ib)
-    t["initDictOff"] = bool(m) and (first_use is None or m.start() < first_use.start())
+    t["initDictOff"] = text_init_dict_off(ib)
 
     # --- references (lib/base/reference.cpp): which sandbox flag does a read through a Reference use
     rsrc = read(repo, "lib/base/reference.cpp")
@@ -191,16 +658,20 @@ def extract(repo):
     a = split_args(gb[0][1][p0 + 1:match_close(gb[0][1], p0, "(", ")")])
     if len(a) < 2:
         raise Lost("reference.cpp: cannot read the sandboxed argument of GetFieldByName in Reference::Get")
-    t["refGetSandboxed"] = a[1] == "true"
+    t["refGetSandboxed"] = norm_atom(a[1]) == "true"
 
     # --- call check
     fc = dict(ev)["FunctionCallExpression"]
-    m = re.search(r"if\s*\(\s*!\s*func->IsSideEffectFree\s*\(\s*\)\s*&&\s*frame\.Sandboxed\s*\)\s*BOOST_THROW_EXCEPTION\s*\(", fc) or \
-        re.search(r"if\s*\(\s*frame\.Sandboxed\s*&&\s*!\s*func->IsSideEffectFree\s*\(\s*\)\s*\)\s*BOOST_THROW_EXCEPTION\s*\(", fc)
     call = fc.find("VMOps::FunctionCall")
     if call < 0:
         raise Lost("expression.cpp: VMOps::FunctionCall not found in FunctionCallExpression::DoEvaluate")
-    t["callCheck"] = bool(m) and m.start() < call
+    tc = text_call_check(fc)
+    if t["method"] == "clang-ast":
+        t["callCheck"] = bool(ast["callCheck"])
+        if bool(ast["callCheck"]) != tc:
+            t["ast_text_disagree"].append("callCheck")
+    else:
+        t["callCheck"] = tc
 
     # --- hidden fields
     obj = read(repo, "lib/base/object.cpp")
@@ -208,16 +679,9 @@ def extract(repo):
     if len(gb) != 1:
         raise Lost("object.cpp: Object::GetFieldByName(const String&, bool sandboxed, ...) not found")
     b = gb[0][1]
-    m = re.search(r"if\s*\(\s*sandboxed\s*\)\s*\{", b)
-    ret = b.rfind("return GetField(fid)")
-    if ret < 0:
-        raise Lost("object.cpp: `return GetField(fid)` not found in GetFieldByName")
-    ok = False
-    if m and m.start() < ret:
-        blk_end = match_close(b, b.index("{", m.start()))
-        blk = b[m.start():blk_end]
-        ok = blk_end < ret and bool(re.search(r"if\s*\(\s*fieldInfo\.Attributes\s*&\s*FANoUserView\s*\)\s*BOOST_THROW_EXCEPTION\s*\(", blk))
-    t["fieldCheck"] = ok
+    if "GetField(fid)" not in b:
+        raise Lost("object.cpp: `GetField(fid)` not found in GetFieldByName")
+    t["fieldCheck"] = text_field_check(b)
 
     # --- frame inheritance
     sf = read(repo, "lib/base/scriptframe.cpp")
@@ -345,8 +809,16 @@ def render(t):
     return "\n".join(o) + "\n"
 
 
-def generate(repo, out_path):
-    t = extract(repo)
+def default_build():
+    root = os.path.dirname(os.path.dirname(os.path.abspath(__file__)))
+    work = os.environ.get("VERIF_WORK", os.path.join(root, "_work"))
+    return os.path.join(work, "build-hooks"), os.path.join(work, "c19", "astcache")
+
+
+def generate(repo, out_path, build=None, cache=None, use_ast=True):
+    if build is None:
+        build, cache = default_build()
+    t = extract(repo, build, cache, use_ast)
     text = render(t)
     os.makedirs(os.path.dirname(out_path), exist_ok=True)
     old = open(out_path, encoding="utf-8").read() if os.path.exists(out_path) else None
@@ -366,6 +838,7 @@ if __name__ == "__main__":
     except Lost as e:
         print("LOST ANCHOR: %s" % e)
         sys.exit(1)
-    print("nodes=%d guarded=%d natives=%d safe=%d invokers=%d callCheck=%s fieldCheck=%s" % (
+    print("method=%s disagree=%s nodes=%d guarded=%d natives=%d safe=%d invokers=%d callCheck=%s fieldCheck=%s" % (
+        t["method"], t["ast_text_disagree"],
         len(t["nodeGuards"]), sum(v for _, v in t["nodeGuards"]), len(t["natives"]), sum(v for _, v in t["natives"]),
         len(t["callbackInvokers"]), t["callCheck"], t["fieldCheck"]))
